@@ -325,14 +325,14 @@ impl AstLowering {
                                 errors.push(e);
                             }
 
-                            // Generate impl block for all methods (inherited + own)
-                            if !all_methods.is_empty() {
-                                match self.lower_class_methods(&struct_ir.name, &all_methods) {
-                                    Ok(impl_ir) => {
-                                        ir_program.declarations.push(IrDecl::new(IrDeclKind::Impl(impl_ir)));
-                                    }
-                                    Err(e) => errors.push(e),
+                            // Generate impl block for all methods (inherited + own). Like for models, the block is
+                            // lowered even when there are no methods: serde helpers (to_json/from_json) are added to
+                            // it during emission, and an impl that stays empty emits nothing.
+                            match self.lower_class_methods(&struct_ir.name, &all_methods) {
+                                Ok(impl_ir) => {
+                                    ir_program.declarations.push(IrDecl::new(IrDeclKind::Impl(impl_ir)));
                                 }
+                                Err(e) => errors.push(e),
                             }
 
                             // Generate trait impls for each trait this class implements
